@@ -6,7 +6,7 @@
        series value = feed (deliveries of  orun (oinit use) (events of object i))
    The per-kind lemmas of Proof/PromObjP.v then give the values. *)
 From Coq Require Import ZArith List Bool Lia Arith.
-From Tally Require Import Base.Obs Base.Search Model.Buckets Model.Prom Proof.PromP Proof.PromObjP.
+From Tally Require Import Base.ObsCore Base.Search Model.Buckets Model.Prom Proof.PromP Proof.PromObjP.
 Import ListNotations.
 Open Scope Z_scope.
 
